@@ -26,6 +26,41 @@ import (
 
 type vP4Err struct{ codes []int32 }
 
+// vJunkDetail: a per-update detail of a failed Write that is not a p4.v1.Error.
+const vJunkDetail int32 = -1
+
+// vLastStatus: under the engine grpc's status package is modelled at its three
+// entry points convertError uses (FromError, Code, Details) so that the REAL
+// convertError runs; the status handed out last stands for the error it came from.
+var vLastStatus *vP4Err
+
+func vInstallStatusModel() {
+	vOverride("google.golang.org/grpc/status.FromError", func(err error) (*status.Status, bool) {
+		if pe, ok := err.(*vP4Err); ok {
+			vLastStatus = pe
+			return new(status.Status), true
+		}
+		vLastStatus = nil
+		return nil, false
+	})
+	vOverride("(*google.golang.org/grpc/internal/status.Status).Code", func(s *status.Status) codes.Code {
+		return codes.Unknown
+	})
+	vOverride("(*google.golang.org/grpc/internal/status.Status).Details", func(s *status.Status) []any {
+		var out []any
+		if vLastStatus != nil {
+			for _, c := range vLastStatus.codes {
+				if c == vJunkDetail {
+					out = append(out, &p4.Uint128{High: 1, Low: 2})
+				} else {
+					out = append(out, &p4.Error{CanonicalCode: c})
+				}
+			}
+		}
+		return out
+	})
+}
+
 func (e *vP4Err) Error() string { return "p4 error" }
 
 // vMakeP4Err builds the error a P4Runtime server returns for a Write whose
@@ -36,6 +71,11 @@ func vMakeP4Err(cs []int32) error {
 	}
 	st := status.New(codes.Unknown, "write failed")
 	for _, c := range cs {
+		if c == vJunkDetail {
+			// a detail that is not a p4.v1.Error (it cannot be unpacked as one)
+			st, _ = st.WithDetails(&p4.Uint128{High: 1, Low: 2})
+			continue
+		}
 		st, _ = st.WithDetails(&p4.Error{CanonicalCode: c})
 	}
 	return st.Err()
@@ -339,19 +379,7 @@ func vNewUP4(poolCells int64, sliceID, defaultTC uint8, qfiToTC map[uint8]uint8)
 	if vInEngine() {
 		vInstallBurstStub()
 		vOverride("(*github.com/omec-project/upf-epc/pfcpiface.P4rtClient).CheckStatus", func(c *P4rtClient) connectivity.State { return connectivity.Ready })
-		vOverride("github.com/omec-project/upf-epc/pfcpiface.convertError", func(err error) error {
-			if err == nil {
-				return nil
-			}
-			if pe, ok := err.(*vP4Err); ok {
-				r := &P4RuntimeError{}
-				for _, c := range pe.codes {
-					r.errors = append(r.errors, &p4.Error{CanonicalCode: c})
-				}
-				return r
-			}
-			return err
-		})
+		vInstallStatusModel() // the real convertError runs on a model of grpc status
 	} else {
 		cl.conn = vNativeReadyConn()
 	}
